@@ -65,18 +65,18 @@ class YosysStructuralTranslatorL4(
             _subcomp_ifc_port_gen( d, msb, ifc_id+"__"+str(i), id_, n_dim[1:] )
         return ret
 
-    def _subcomp_ifc_conn_gen( d, cpid, _pid, cwid, _wid, idx, n_dim ):
+    def _subcomp_ifc_conn_gen( d, cpid, _pid, cwid, _wid, idx, n_dim, pre = "" ):
+      # `pre` collects the indices of the array dimensions in declaration order
       if not n_dim:
         pid = cpid + "__" + _pid
         wid = cwid + "__" + _wid
-        return [ { "direction" : d, "pid" : pid, "wid" : wid, "idx" : idx } ]
+        return [ { "direction" : d, "pid" : pid, "wid" : wid, "idx" : pre + idx } ]
       else:
         ret = []
         for i in range( n_dim[0] ):
           _cpid = f"{cpid}__{i}"
-          _idx = f"[{i}]{idx}"
           ret += \
-            _subcomp_ifc_conn_gen( d, _cpid, _pid, cwid, _wid, _idx, n_dim[1:] )
+            _subcomp_ifc_conn_gen( d, _cpid, _pid, cwid, _wid, idx, n_dim[1:], f"{pre}[{i}]" )
         return ret
 
     ifc_n_dim = ifc_array_type["n_dim"]
@@ -189,7 +189,8 @@ class YosysStructuralTranslatorL4(
           ret += _subcomp_port_gen( obj[i], c_id+"__"+str(i), n_dim[1:], port_decls )
         return ret
 
-    def _subcomp_conn_gen( d, cpid, _pid, cwid, _wid, idx, n_dim ):
+    def _subcomp_conn_gen( d, cpid, _pid, cwid, _wid, idx, n_dim, pre = "" ):
+      # `pre` collects the indices of the array dimensions in declaration order
       if d.startswith( "input" ):
         template = "assign {pid} = {wid}{idx};"
       else:
@@ -197,13 +198,13 @@ class YosysStructuralTranslatorL4(
       if not n_dim:
         pid = f"{cpid}__{_pid}"
         wid = f"{cwid}__{_wid}"
+        idx = pre + idx
         return [ template.format( **locals() ) ]
       else:
         ret = []
         for i in range( n_dim[0] ):
           _cpid = f"{cpid}__{i}"
-          _idx = f"[{i}]{idx}"
-          ret += _subcomp_conn_gen( d, _cpid, _pid, cwid, _wid, _idx, n_dim[1:] )
+          ret += _subcomp_conn_gen( d, _cpid, _pid, cwid, _wid, idx, n_dim[1:], f"{pre}[{i}]" )
         return ret
 
     wire_template = "logic {packed_type: <8} {id_}{array_dim_str};"
